@@ -96,6 +96,14 @@ theorem Eff.forIn_addAll (e : EffEnv) (f : Str → Eff (Option Unit))
     rcases hv : vcsCall e.plan (.add p) s with ⟨s1, o⟩
     cases o <;> simp [Eff.liftC, ih, Eff.pure]
 
+/-- an accumulation loop that appends exactly one item per iteration is a `map` (the translator renders
+    `acc = []; for x in xs: acc.append(f x)` as `[] ++ xs.flatMap (fun x => [f x])`, a comprehension as `xs.map f`) -/
+@[simp] theorem List.flatMap_singleton_eq_map {α β : Type} (f : α → β) (xs : List α) :
+    List.flatMap (fun x => [f x]) xs = List.map f xs := by
+  induction xs with
+  | nil => rfl
+  | cons x xs ih => simp [List.flatMap_cons, ih]
+
 /-- a loop whose body does not distinguish two environments does not distinguish them either -/
 theorem Eff.forIn_env_congr {α ρ : Type} (f : α → Eff (Option ρ)) (e1 e2 : EffEnv)
     (h : ∀ x s, f x e1 s = f x e2 s) (xs : List α) (s : PState) :
